@@ -521,3 +521,174 @@ func LoadedField(v ssa.Value) (*types.Var, ssa.Value) {
 	}
 	return nil, nil
 }
+
+// Unspill: a load of a local cell (a named result or captured variable) is
+// replaced by the value most recently stored to it earlier in the same block.
+func Unspill(v ssa.Value) ssa.Value {
+	u, ok := v.(*ssa.UnOp)
+	if !ok || u.Op != token.MUL {
+		return v
+	}
+	if _, isA := u.X.(*ssa.Alloc); !isA {
+		return v
+	}
+	var last ssa.Value
+	for _, in := range u.Block().Instrs {
+		if in == ssa.Instruction(u) {
+			break
+		}
+		if st, ok := in.(*ssa.Store); ok && st.Addr == u.X {
+			last = st.Val
+		}
+		if _, isCall := in.(ssa.CallInstruction); isCall {
+			last = nil
+		}
+	}
+	if last != nil {
+		return last
+	}
+	return v
+}
+
+// CallSuccessEdges returns the nil-error successor edges of the error tests on
+// the (last, error-typed) result of call.
+func CallSuccessEdges(f *ssa.Function, call *ssa.Call) []Edge {
+	var out []Edge
+	for _, b := range f.Blocks {
+		ifi, ok := b.Instrs[len(b.Instrs)-1].(*ssa.If)
+		if !ok {
+			continue
+		}
+		okEdge, is := IsErrCheck(ifi)
+		if !is {
+			continue
+		}
+		cond := ifi.Cond
+		for {
+			if u, ok := cond.(*ssa.UnOp); ok && u.Op == token.NOT {
+				cond = u.X
+				continue
+			}
+			break
+		}
+		bo := cond.(*ssa.BinOp)
+		errv := bo.X
+		if k, isC := errv.(*ssa.Const); isC && k.IsNil() {
+			errv = bo.Y
+		}
+		errv = Unspill(errv)
+		var src *ssa.Call
+		switch x := errv.(type) {
+		case *ssa.Call:
+			src = x
+		case *ssa.Extract:
+			src, _ = x.Tuple.(*ssa.Call)
+		}
+		if src == call {
+			out = append(out, Edge{From: b, To: b.Succs[okEdge]})
+		}
+	}
+	return out
+}
+
+// GuardEdgesDeep collects the edges of f on which a fact accepted by pred is
+// established: branch edges of f itself, plus the success edges of static
+// calls to repository functions whose every success return is, inside the
+// callee, reached only through such edges (recursively, bounded depth). This
+// makes dominance rules indifferent to whether a group of checks lives in the
+// function or in a helper it calls.
+func GuardEdgesDeep(f *ssa.Function, pred func(Cmp) bool, depth int) []Edge {
+	out := GuardEdges(f, pred)
+	if depth <= 0 {
+		return out
+	}
+	Instrs(f, func(in ssa.Instruction) {
+		call, ok := in.(*ssa.Call)
+		if !ok {
+			return
+		}
+		h := call.Call.StaticCallee()
+		if h == nil || h == f || !InRepo(h) || len(h.Blocks) == 0 {
+			return
+		}
+		res := h.Signature.Results()
+		if res.Len() == 0 || !IsErrorType(res.At(res.Len()-1).Type()) {
+			return
+		}
+		inner := GuardEdgesDeep(h, pred, depth-1)
+		if len(inner) == 0 {
+			return
+		}
+		all, n := true, 0
+		Instrs(h, func(i2 ssa.Instruction) {
+			r, isR := i2.(*ssa.Return)
+			if !isR || ReturnsNonNilError(r) {
+				return
+			}
+			n++
+			if !AllPathsThroughEdges(h, r.Block(), inner) {
+				all = false
+			}
+		})
+		if all && n > 0 {
+			out = append(out, CallSuccessEdges(f, call)...)
+		}
+	})
+	return out
+}
+
+// CallGuardEdgesDeep collects the edges of f that are only taken after one of
+// the target calls succeeded: the success edges of target calls in f, plus the
+// success edges of calls to repository helpers all of whose success returns
+// are, inside the helper, reached only through such edges (bounded depth).
+func CallGuardEdgesDeep(f *ssa.Function, isTarget func(*ssa.Call) bool, depth int) []Edge {
+	var out []Edge
+	Instrs(f, func(in ssa.Instruction) {
+		call, ok := in.(*ssa.Call)
+		if !ok {
+			return
+		}
+		if isTarget(call) {
+			out = append(out, CallSuccessEdges(f, call)...)
+			return
+		}
+		if depth <= 0 {
+			return
+		}
+		h := call.Call.StaticCallee()
+		if h == nil || h == f || !InRepo(h) || len(h.Blocks) == 0 {
+			return
+		}
+		res := h.Signature.Results()
+		if res.Len() == 0 || !IsErrorType(res.At(res.Len()-1).Type()) {
+			return
+		}
+		inner := CallGuardEdgesDeep(h, isTarget, depth-1)
+		if len(inner) == 0 {
+			return
+		}
+		all, n := true, 0
+		Instrs(h, func(i2 ssa.Instruction) {
+			r, isR := i2.(*ssa.Return)
+			if !isR || ReturnsNonNilError(r) {
+				return
+			}
+			// returns on the failure edge of an error test are not successes
+			fail := GuardEdges(h, func(cm Cmp) bool {
+				k, isK := cm.Y.(*ssa.Const)
+				return cm.Op == token.NEQ && isK && k.IsNil() && IsErrorType(cm.X.Type())
+			})
+			if len(fail) > 0 && AllPathsThroughEdges(h, r.Block(), fail) {
+				return
+			}
+			n++
+			if !AllPathsThroughEdges(h, r.Block(), inner) {
+				all = false
+			}
+		})
+		if all && n > 0 {
+			out = append(out, CallSuccessEdges(f, call)...)
+		}
+	})
+	return out
+}
